@@ -20,7 +20,11 @@ def common_prefix(a, b):
 
 
 def gen_case(rng: random.Random, groups=True, malformed=False, asyncs=False, compliant_outputs=False, maxn=5,
-             monotone=False, unique_slots=False, weak_ok=True, shifts=(1, 1, 1, 2, 3)):
+             monotone=False, unique_slots=False, weak_ok=True, shifts=(1, 1, 1, 2, 3), clean=None, loops=False):
+    if clean is not None and rng.random() < clean:
+        compliant_outputs = monotone = unique_slots = True; weak_ok = False; do_clean = True
+    else:
+        do_clean = False
     n = rng.randint(2, maxn)
     types = [rng.choice(['time-based', 'event-based', 'hybrid']) for _ in range(n)]
     r = rng.random()
@@ -65,13 +69,41 @@ def gen_case(rng: random.Random, groups=True, malformed=False, asyncs=False, com
             e['async'] = True
         edges.append(e)
         # parallel connection between the same pair with a different delay (explicit generator feature)
-        if rng.random() < 0.12 and not unique_slots:
+        if rng.random() < (0.35 if unique_slots else 0.15):
             k2 = rng.choice(['ts', 'p'] + (['w'] if in_common_group and weak_ok else []))
             if k2 != kind:
                 e2 = dict(e); e2.pop('async', None)
+                if unique_slots:
+                    # another slot: different source and destination attribute
+                    alt_s = [x for x in srcs if x != sa]; alt_d = [x for x in dsts if x != da]
+                    if not alt_s or not alt_d: continue
+                    e2.update(sa=alt_s[0], da=alt_d[0])
+                    if (a, e2['sa'], b, e2['da']) in seen_slots: continue
+                    seen_slots.add((a, e2['sa'], b, e2['da']))
                 e2.update(kind=k2, shift=rng.choice(shifts) if k2 == 'ts' else 0)
-                e2['init'] = (k2 != 'p' and da == 'i') or (k2 != 'p' and sa == 'po' and rng.random() < 0.5)
-                edges.append(e2)
+                e2['init'] = (k2 != 'p' and e2['da'] == 'i') or (k2 != 'p' and e2['sa'] == 'po' and rng.random() < 0.5)
+                if rng.random() < 0.5: edges.insert(len(edges) - 1, e2)     # the larger delay may come first
+                else: edges.append(e2)
+    if do_clean:
+        # data-flow hypotheses of C03: no initial data on event sources, one connection per initialised source attribute
+        out = []
+        for e in edges:
+            if e['init'] and e['sa'] == 'eo':
+                if types[e['b']] != 'time-based': e = dict(e, da='ti', init=False)
+                else: continue
+            out.append(e)
+        inited = {(e['a'], e['sa']) for e in out if e['init']}
+        edges = []
+        seen = set()
+        for e in out:
+            k = (e['a'], e['sa'])
+            if k in inited:
+                plain_ok = types[e['a']] == 'time-based' and e['kind'] == 'p' and not e['init']
+                if not plain_ok:
+                    if k in seen or not e['init']: continue
+                    seen.add(k)
+            edges.append(e)
+        edges = [e for e in edges if not (e['kind'] != 'p' and e['da'] == 'i' and not e['init'])]
     until = rng.randint(2, 8)
     beh = []
     for i in range(n):
@@ -104,15 +136,19 @@ def gen_case(rng: random.Random, groups=True, malformed=False, asyncs=False, com
         beh.append(b)
     init = [[i, rng.randint(0, 2)] for i in range(n) if types[i] == 'event-based' and rng.random() < 0.7]
     case = dict(n=n, types=types, grp=grp, edges=edges, until=until, beh=beh, init=init,
-                maxloop=rng.choice([100, 100, 100, 3, 2, 1]) if groups else 100)
+                maxloop=(rng.choice([1, 2, 3, 3]) if loops else rng.choice([100, 100, 100, 3, 2, 1])) if groups else 100)
     if asyncs:
         # agents write to their async predecessors during some steps
         for e in edges:
             if e.get('async'):
                 sd = case['beh'][e['b']].setdefault('set_data', {})
+                ins = {'time-based': ['i'], 'event-based': ['ti'], 'hybrid': ['i', 'ti']}[types[e['a']]]
+                # a slot (attribute, writer) that no connection from the writer also feeds
+                free = [x for x in ins if not any(f['a'] == e['b'] and f['b'] == e['a'] and f['da'] == x for f in edges)]
+                if not free: continue
                 for tt in range(until):
                     if rng.random() < 0.5:
-                        sd.setdefault(f'{tt},0', []).append([f"S{e['a']}", rng.choice(['i', 'ti']) if types[e['a']] == 'hybrid' else ('i' if types[e['a']] == 'time-based' else 'ti'), f"set{e['b']}@{tt}"])
+                        sd.setdefault(f'{tt},0', []).append([f"S{e['a']}", rng.choice(free), f"set{e['b']}@{tt}"])
     if malformed:
         i = rng.randrange(n)
         tt = rng.randint(0, max(0, until - 1))
@@ -135,3 +171,38 @@ def pick_strategy(rng, case):
     if r < 0.25:
         return f"starve:S{rng.randrange(case['n'])}"
     return rng.choice(STRATEGIES)
+
+
+def gen_loop_case(rng: random.Random):
+    """same-time (weak) loops around the max_loop_iterations bound, in one group, nested groups or sibling sub-groups"""
+    shape = rng.choice(['one', 'nested', 'siblings', 'mixed'])
+    n = rng.choice([2, 2, 3])
+    if shape == 'one': places = [[0]] * n
+    elif shape == 'nested': places = [[0, 0]] * n
+    elif shape == 'siblings': places = [[0, k % 2] for k in range(n)]
+    else: places = [rng.choice([[0], [0, 0], [0, 1]]) for _ in range(n)]
+    types = [rng.choice(['hybrid', 'event-based']) for _ in range(n)]
+    driver = rng.random() < 0.5
+    grp = [list(p) for p in places] + ([[]] if driver else [])
+    if driver: types.append('time-based')
+    edges = []
+    for k in range(n - 1):
+        edges.append(dict(a=k, b=k + 1, sa='eo', da='ti', kind='p', shift=0, init=False))
+    edges.append(dict(a=n - 1, b=0, sa='eo', da='ti', kind='w', shift=0, init=False))
+    if driver:
+        edges.append(dict(a=n, b=0, sa='po', da='ti' if types[0] != 'time-based' else 'i', kind='p', shift=0, init=False))
+    bound = rng.choice([1, 2, 3, 5])
+    L = max(0, bound + rng.choice([-2, -1, 0, 1, 2]))
+    until = rng.randint(1, 3)
+    beh = []
+    for i in range(n):
+        outs = {}
+        for tt in range(until):
+            for k in range(bound + 4):
+                attrs = (['eo'] if types[i] == 'event-based' else ['po', 'eo']) if k < L else ([] if types[i] == 'event-based' else ['po'])
+                outs[f'{tt},{k}'] = [None, attrs]
+        beh.append({'type': types[i], 'self_steps': {}, 'outputs': outs})
+    if driver:
+        beh.append({'type': 'time-based', 'step_size': 1, 'default_output': [None, ['po']]})
+    init = [] if driver else [[0, 0]] if types[0] == 'event-based' else []
+    return dict(n=len(types), types=types, grp=grp, edges=edges, until=until, beh=beh, init=init, maxloop=bound, loop_len=L)
